@@ -18,15 +18,45 @@ type loadIter struct {
 	nk     bool // native known
 }
 
+// loadRoles: the captured variables of LoadOnce's transaction body, identified
+// by what they are initialised with in LoadOnce (not by their names).
+type loadRolesT struct {
+	snap, native, t0, lastTxnID string // as "*free:<name>"
+	ok                          bool
+}
+
+func loadRoles(c *Check) loadRolesT {
+	parent, cl := c.P.Func(fnLoadOnce), c.P.Func(fnLoadTxn)
+	var r loadRolesT
+	if parent == nil || cl == nil {
+		return r
+	}
+	f := func(n string) string {
+		if n == "" {
+			return ""
+		}
+		return "*free:" + n
+	}
+	r.snap = f(freeInitSuffix(parent, cl, ".Snapshot"))
+	r.native = f(freeInitSuffix(parent, cl, ".SchemaTracksChanges"))
+	r.t0 = f(freeInitSuffix(parent, cl, "call:time.Now"))
+	if len(parent.Params) >= 6 {
+		r.lastTxnID = f(freeInitSuffix(parent, cl, parent.Params[5].Name()))
+	}
+	r.ok = r.snap != "" && r.native != "" && r.t0 != "" && r.lastTxnID != ""
+	return r
+}
+
 // loadIterations classifies the paths of LoadOnce$1 that are inside an
 // iteration over snap.Databases.
-func loadIterations(paths []Path) []loadIter {
+func loadIterations(c *Check, paths []Path) []loadIter {
 	var out []loadIter
+	roles := loadRoles(c)
 	for i := range paths {
 		p := &paths[i]
 		for _, cd := range p.Conds() {
 			a := cd.Atom.A
-			if cd.Atom.Kind == "bool" && strings.HasPrefix(a, "strings.HasPrefix(snapshot.(*DBI).Name(*free:snap.Databases[") && strings.HasSuffix(a, ", const:\"_sync\")") {
+			if cd.Atom.Kind == "bool" && strings.HasPrefix(a, "strings.HasPrefix(snapshot.(*DBI).Name("+roles.snap+".Databases[") && strings.HasSuffix(a, ", const:\"_sync\")") {
 				name := strings.TrimSuffix(strings.TrimPrefix(a, "strings.HasPrefix("), ", const:\"_sync\")")
 				elem := strings.TrimSuffix(strings.TrimPrefix(name, "snapshot.(*DBI).Name("), ")")
 				it := loadIter{p: p, elem: elem, name: name}
@@ -36,7 +66,7 @@ func loadIterations(paths []Path) []loadIter {
 					if e.Kind == "cond" && e.Cond.Atom.A == a {
 						seen = true
 					}
-					if seen && e.Kind == "cond" && e.Cond.Atom.Kind == "bool" && e.Cond.Atom.A == "*free:schemaTracksChanges" {
+					if seen && e.Kind == "cond" && e.Cond.Atom.Kind == "bool" && e.Cond.Atom.A == roles.native {
 						it.native, it.nk = e.Cond.Truth, true
 					}
 				}
@@ -56,7 +86,12 @@ func ruleLoadBody(c *Check, rApply, rIterArgs, rValidate, rPreV3, rCancel string
 	}
 	pos := c.P.Pos(fn.Pos())
 	txn := param(fn, 0)
-	its := loadIterations(paths)
+	its := loadIterations(c, paths)
+	roles := loadRoles(c)
+	if !roles.ok {
+		c.Undecided(rApply, fnLoadTxn+"/captured", "cannot identify the captured snapshot, mode flag, start time and watermark of the transaction body", pos)
+		return
+	}
 	nSkip, nUpd, nErr, bad := 0, 0, 0, 0
 	badArgs, nArgs := 0, 0
 	badVal, nTouch := 0, 0
@@ -77,7 +112,7 @@ func ruleLoadBody(c *Check, rApply, rIterArgs, rValidate, rPreV3, rCancel string
 		vt := callsOf(p, "snapshot.(*DBI).ValidateTransform")
 		for _, t := range touch {
 			nTouch++
-			ok := len(vt) == 1 && eventIndex(p, vt[0]) < eventIndex(p, t) && vt[0].Args[0] == it.elem && vt[0].Args[1] == "*free:snap.FormatVersion" && vt[0].Args[2] == "*free:schemaTracksChanges"
+			ok := len(vt) == 1 && eventIndex(p, vt[0]) < eventIndex(p, t) && vt[0].Args[0] == it.elem && vt[0].Args[1] == roles.snap+".FormatVersion" && vt[0].Args[2] == roles.native
 			if ok {
 				tr, f := boolCond(p, "isnil("+vt[0].Res+")", eventIndex(p, t))
 				ok = f && tr
@@ -92,9 +127,9 @@ func ruleLoadBody(c *Check, rApply, rIterArgs, rValidate, rPreV3, rCancel string
 		for _, od := range callsOf(p, "(*lmdb.Txn).OpenDBI") {
 			if od.Args[1] == it.name && strings.Contains(od.Args[2], "const:262144") && it.nk && !it.native {
 				nCreate++
-				old, f1 := condTruth(p, "*free:snap.FormatVersion < const:3", eventIndex(p, od))
+				old, f1 := condTruth(p, roles.snap+".FormatVersion < const:3", eventIndex(p, od))
 				_ = old
-				fvRel := p.State.RelOf("int", "*free:snap.FormatVersion", "const:3")
+				fvRel := p.State.RelOf("int", roles.snap+".FormatVersion", "const:3")
 				ovNil, f2 := condTruth(p, ".OverrideCreateFlags)", eventIndex(p, od))
 				okk := f1 && (fvRel&LT == 0 || (f2 && !ovNil))
 				if !okk {
@@ -135,11 +170,11 @@ func ruleLoadBody(c *Check, rApply, rIterArgs, rValidate, rPreV3, rCancel string
 				}
 				cutOK := false
 				for _, dc := range callsOf(p, "syncer.(*Syncer).deletedCutoff") {
-					if dc.Res == a[5] && dc.Args[1] == "*free:t0" {
+					if dc.Res == a[5] && dc.Args[1] == roles.t0 {
 						cutOK = true
 					}
 				}
-				if !(a[0] == "*free:snap.FormatVersion" && a[1] == "*free:snap.CompatVersion" && a[3] == "const:0" && idOK && cutOK) {
+				if !(a[0] == roles.snap+".FormatVersion" && a[1] == roles.snap+".CompatVersion" && a[3] == "const:0" && idOK && cutOK) {
 					badArgs++
 					c.Bad(rIterArgs, fnLoadTxn+"/iterator-args", fmt.Sprintf("NewNativeIterator%v: expected (snap.FormatVersion, snap.CompatVersion, dbiMsg, 0 = no default timestamp, txn.ID() of this write transaction, deletedCutoff(t0))", a), evPos(c, ni[0]), nil)
 				}
